@@ -3,6 +3,7 @@ import FsnVerif.Proofs.ALLemmas
 import FsnVerif.Proofs.DecodeLemmas
 import FsnVerif.Proofs.PathLemmas
 import FsnVerif.Proofs.PathShape
+import FsnVerif.Proofs.TrimLemmas
 /-!
 # C08 — Event names are spelled relative to the caller's Add argument (model side)
 
@@ -103,6 +104,15 @@ concatenation inserts (backend_inotify.go, `name += "/" + …`; `nameOf` here) i
 for every watch but one on `/` itself -/
 theorem stored_path_no_trailing_slash (arg : Path) :
     clean arg = [slash] ∨ (clean arg).getLast? ≠ some slash := clean_no_trailing_slash arg
+
+/-- **never carries padding bytes**: for every record, well-formed or not, the entry part of the name does not
+end in NUL -/
+theorem entry_no_trailing_nul (r : Raw) : (trimNul r.name).getLast? ≠ some 0 := trimNul_no_trailing_nul r.name
+
+/-- **never truncated**: the record's name bytes are the entry part followed by NUL bytes only — trimming cuts
+nothing but padding, for every record -/
+theorem entry_only_padding_cut (r : Raw) : ∃ k, r.name = trimNul r.name ++ List.replicate k 0 :=
+  trimNul_prefix r.name
 
 /-- non-vacuity: a relative argument with `..` and `//`, an entry name, a relative event name -/
 example : nameOf ⟨1, 0, clean [46, 46, 47, 47, 97], false⟩ ⟨1, 0x100, 0, 16, [98, 0, 0]⟩ = [46, 46, 47, 97, 47, 98] := by decide
